@@ -3,6 +3,7 @@ package props
 import (
 	"go/ast"
 	"go/types"
+	"os"
 	"strings"
 
 	"pdfverif/internal/core"
@@ -21,7 +22,17 @@ func init() {
 
 func runC15(c *core.Ctx) {
 	const cp = "pdf/graphics/content"
-	defer rulePublishedNotRecycled(c, cp, cp+"/builder")
+	defer func() {
+		if os.Getenv("PDFVERIF_EXPLORE") != "" {
+			var all []string
+			for _, p := range c.Prog.RepoPkgs() {
+				all = append(all, core.ShortPkg(p.PkgPath))
+			}
+			rulePublishedNotRecycled(c, "C15-R9", all...)
+			return
+		}
+		rulePublishedNotRecycled(c, "C15-R9", cp, cp+"/builder")
+	}()
 	defer ruleRealParse(c, "C15-R8", [2]string{cp, "parseNumber"})
 	ruleClassTable(c, "C15-R1", "pdf")
 	ruleClassTable(c, "C15-R1", cp)
@@ -252,7 +263,7 @@ var recycleExempt = map[string]string{
 // (f = f[:0], append(f[:0], ...)); the publisher owns it from then on.  The
 // combination silently overwrites operands (two arrays of one operator share
 // storage) or previously harvested operator lists.
-func rulePublishedNotRecycled(c *core.Ctx, pkgs ...string) {
+func rulePublishedNotRecycled(c *core.Ctx, rule string, pkgs ...string) {
 	type site struct {
 		fn   *core.Func
 		node ast.Node
@@ -318,9 +329,13 @@ func rulePublishedNotRecycled(c *core.Ctx, pkgs ...string) {
 						if obj == nil || alias[obj] != nil {
 							continue
 						}
-						if f := fieldOf(as.Rhs[i]); f != nil && !isZeroReslice(as.Rhs[i]) {
+						if f := fieldOf(as.Rhs[i]); f != nil {
 							alias[obj] = f
 							changed = true
+							if isZeroReslice(as.Rhs[i]) {
+								// a local view of the field's storage, emptied for reuse
+								recycle[f] = append(recycle[f], site{fn, as, c.Prog.Src(as)})
+							}
 						}
 					}
 					return true
@@ -571,7 +586,7 @@ func rulePublishedNotRecycled(c *core.Ctx, pkgs ...string) {
 		}
 		return core.ShortPkg(f.Pkg().Path()) + ".?." + f.Name()
 	}
-	c.Check("C15-R9", "published-not-recycled", "no slice field of the content scanner or builder is both handed out and recycled by re-slicing to length zero (except the documented per-operator argument buffer)", func(o *core.Ob) {
+	c.Check(rule, "published-not-recycled", "no slice field or local slice of the listed packages is both handed out (returned, stored elsewhere, given to a retaining callee) and recycled by re-slicing to length zero (except documented transient buffers)", func(o *core.Ob) {
 		o.Count(nFields)
 		o.Fact("%d slice fields, %d published, %d recycled", nFields, len(publish), len(recycle))
 		for f, rs := range recycle {
@@ -588,7 +603,7 @@ func rulePublishedNotRecycled(c *core.Ctx, pkgs ...string) {
 				o.FailAt(r.fn.Site(r.node, "recycled"), "%s: %s recycles the storage of %s (%s), which is handed out at %s (%s): later writes overwrite what the holder sees", c.Prog.Pos(r.node.Pos()), r.fn.Key, key, r.how, c.Prog.Pos(ps[0].node.Pos()), ps[0].how)
 			}
 		}
-		o.Require(nFields >= 5, "only %d slice fields found", nFields)
+		o.Require(nFields >= 1, "only %d slice fields found", nFields)
 		o.Fact("%d local slices handed to retaining callees", nLocalPub)
 		for _, lb := range localBad {
 			o.FailAt(lb.fn.Site(lb.rec, "recycled"), "%s: the local slice %s is handed to %s, which keeps it (%s), and is then recycled with %s: what is appended afterwards overwrites the operands already emitted", c.Prog.Pos(lb.rec.Pos()), lb.name, lb.callee, c.Prog.Pos(lb.pub.Pos()), c.Prog.Src(lb.rec))
